@@ -188,3 +188,24 @@ package server
 //@ effect[C12:append-carries-the-requested-offset] every s.storage.AppendObject(_, $b, $k, _, $ci, $o)
 //@     where $b == bucketName && $k == key && $ci == checksumInput &&
 //@         (writeOffsetStr != "" ==> $o != nil && $o.WriteOffset != nil && *$o.WriteOffset == writeOffset) && (writeOffsetStr == "" ==> $o == nil)
+
+//@ func (*Server).getObjectTaggingHandler
+//@ mode effects
+//@ effect[C31:version-tagging-read-authorized-as-such] every s.storage.GetObjectTagging(_, _, _, $o)
+//@     needs before s.authorizeRequest(_, $op, _, _, _, _) -> ($stop)
+//@     where !$stop && ($o != nil && $o.VersionID != nil ==> $op == authorization.OperationGetObjectVersionTagging) &&
+//@         ($o == nil || $o.VersionID == nil ==> $op == authorization.OperationGetObjectTagging)
+
+//@ func (*Server).deleteObjectTaggingHandler
+//@ mode effects
+//@ effect[C31:version-tagging-delete-authorized-as-such] every s.storage.DeleteObjectTagging(_, _, _, $o)
+//@     needs before s.authorizeRequest(_, $op, _, _, _, _) -> ($stop)
+//@     where !$stop && ($o != nil && $o.VersionID != nil ==> $op == authorization.OperationDeleteObjectVersionTagging) &&
+//@         ($o == nil || $o.VersionID == nil ==> $op == authorization.OperationDeleteObjectTagging)
+
+//@ func (*Server).putObjectTaggingHandler
+//@ mode effects
+//@ effect[C31:version-tagging-write-authorized-as-such] every s.storage.PutObjectTagging(_, _, _, $t, $o)
+//@     needs before s.authorizeRequestWithRequestTags(_, $op, _, _, $rt, _, _) -> ($stop)
+//@     where !$stop && same($rt, $t) && ($o != nil && $o.VersionID != nil ==> $op == authorization.OperationPutObjectVersionTagging) &&
+//@         ($o == nil || $o.VersionID == nil ==> $op == authorization.OperationPutObjectTagging)
